@@ -28,6 +28,41 @@ func TransformUpper(v cty.Value) cty.Value {
 	return v
 }
 
+// TransformToNumber is the reference semantics of the type-changing harness transform:
+// the result is always a number - the byte length of a string, 0/1 for a bool, a number
+// itself, the element count of a collection or structure; null stays null, unknown stays unknown.
+func TransformToNumber(v cty.Value) cty.Value {
+	switch {
+	case v.IsNull():
+		return cty.NullVal(cty.Number)
+	case !v.IsKnown():
+		return cty.UnknownVal(cty.Number)
+	}
+	ty := v.Type()
+	switch {
+	case ty == cty.String:
+		return cty.NumberIntVal(int64(len(v.AsString())))
+	case ty == cty.Bool:
+		if v.True() {
+			return cty.NumberIntVal(1)
+		}
+		return cty.NumberIntVal(0)
+	case ty == cty.Number:
+		return v
+	case ty.IsCollectionType() || ty.IsTupleType() || ty.IsObjectType():
+		return cty.NumberIntVal(int64(v.LengthInt()))
+	}
+	return cty.NumberIntVal(0)
+}
+
+// Transform applies the named harness transform.
+func Transform(name string, v cty.Value) cty.Value {
+	if name == "to_number" {
+		return TransformToNumber(v)
+	}
+	return TransformUpper(v)
+}
+
 func upper(s string) string {
 	b := []rune(s)
 	for i, r := range b {
@@ -83,8 +118,10 @@ func ImpliedType(s *gen.SpecM) cty.Type {
 	case gen.SDefault:
 		return ImpliedType(s.Primary)
 	case gen.STransformFunc:
-		w := ImpliedType(s.Nested)
-		return w // upper_or_same keeps the type
+		if s.Func == "to_number" {
+			return cty.Number
+		}
+		return ImpliedType(s.Nested) // upper_or_same keeps the type
 	case gen.SValidate, gen.SRefine:
 		return ImpliedType(s.Nested)
 	}
@@ -389,7 +426,7 @@ func (d *decCtx) spec(s *gen.SpecM, attrs map[string]ast.Node, blocks map[string
 		if d.err {
 			return cty.DynamicVal
 		}
-		return TransformUpper(v)
+		return Transform(s.Func, v)
 	case gen.SValidate:
 		v := d.spec(s.Nested, attrs, blocks, labels)
 		if !d.err && ValidateRejects(v) {
